@@ -1789,12 +1789,13 @@ fn run_exchange(w: &World, sc: &Script, k: u64, out: &mut Vec<Value>, shard: u64
 	} else {
 		top_up(w, sc.src_acct, need);
 	}
-	if !sc.use_src_name {
-		set_active(s, A, sc.src_acct);
-	} else {
-		set_active(s, A, 0);
-	}
+	// bring the records of the source account up to date (a refresh only covers the active account)
+	set_active(s, A, sc.src_acct);
 	refresh(s, A);
+	if sc.use_src_name {
+		set_active(s, A, 0);
+		refresh(s, A);
+	}
 	// ---- the wallet's outputs before anything is locked
 	let os: Vec<OutputData> = s.with(A, |b, _| b.iter().collect());
 	let key_of = |id: &Identifier, extra: &Vec<(Identifier, u64)>| -> u64 {
@@ -2286,7 +2287,12 @@ fn run_exchange(w: &World, sc: &Script, k: u64, out: &mut Vec<Value>, shard: u64
 				} else {
 					owner::cancel_tx(s.wallets[A].inst.clone(), s.wallets[A].mask.as_ref(), &None, None, Some(id))
 				};
-				if r.is_err() {
+				// (an entry whose ttl has passed is cancelled by the refresh inside cancel_tx itself:
+				// it is then already TxSentCancelled, which is the same end state)
+				let auto_cancelled = s.with(A, |b, _| {
+					b.tx_log_iter().any(|t| t.tx_slate_id == Some(id) && t.tx_type == TxLogEntryType::TxSentCancelled)
+				});
+				if r.is_err() && !auto_cancelled {
 					end_fail.push(format!("cancel_tx after refused replies failed: {:?}", r));
 				}
 				// the reserved coins are free again
